@@ -1702,6 +1702,9 @@ class Interp:
             if stub is not None:
                 args = [self.ev(a) for a in e.args]
                 self.cur_line = line
+                if getattr(stub, 'wants_cells', False):
+                    # contract of a callee that writes through reference parameters
+                    return stub(self, args, None, [self.try_lvalue_cell(a) if isinstance(a, (Id, Member)) else None for a in e.args])
                 return stub(self, args, this if (this is not None and self.w.find_method(this.cls, s)) else None)
             b = self.builtin(s, f, e)
             if b is not NotImplemented:
